@@ -1,29 +1,29 @@
 CONSTANTS
-  Users = {1, 2}
+  Users = {1}
   Vals = {1, 2, 3}
   Tokens = {1}
   TokChain <- Seq1
   TokContract <- Seq1
   TokDenom <- Seq1
-  Amounts = {2}
+  Amounts = {1}
   InitBal = 4
   BatchEvery = 50
   TimeoutBlocks = 300
   Jumps = {50, 301}
   Period = 57600
-  TaxRates <- RateHalf
+  TaxRates <- Rates
   Limits = {3}
-  EstValues = {1}
-  MaxTx = 2
-  MaxBatch = 2
-  MaxClaims = 1
-  MaxHeight = 351
-  Family = "funds"
-  EmitAt = 0
-  MaxK = 2
-  MaxOps = 7
-VIEW GView
+  EstValues = {1, 3, 4}
+  MaxTx = 3
+  MaxBatch = 3
+  MaxClaims = 2
+  MaxHeight = 100000
+  Family = "sigs"
+  EmitAt = 14
+  MaxK = 0
+  MaxOps = 14
 INIT GInit
-NEXT GNextC
+NEXT GNext
 CONSTRAINT GConstr
+INVARIANT Emit
 CHECK_DEADLOCK FALSE
